@@ -27,7 +27,9 @@ SRC = ['(a / x :R (b / y :R (c / z :S a)) :T c :A 1)',
        '(a / x :ARG1-of (m / have-mod-91~e.2 :ARG2~e.3 (b / y)) :quant 1~e.4)',
        # roles and concepts for which the AMR model defines several alternatives (table order decides)
        '(a / alpha :poss (b / beta) :beneficiary (g / gamma) :ARG1-of (i / include-91 :ARG2 (s / set)) '
-       ':ARG0-of (h / have-org-role-91 :ARG2 (r / role)))']
+       ':ARG0-of (h / have-org-role-91 :ARG2 (r / role)))',
+       # roles whose inversion status differs between models (AMR defines :consist-of, :prep-out-of as roles)
+       '(a / alpha :mod (m / mu) :consist-of (b / beta) :ARG0 (c / gamma) :prep-out-of (d / delta :prep-on-behalf-of a))']
 
 
 def snap(x):
@@ -45,12 +47,30 @@ def val(r):
     return repr(r)
 
 
-def calls(amr):
-    M = get_model('default')
+def calls(amr, M=None, suffix=''):
+    """the call table; with M=None the transformations use *amr* and the sort key comes from the default
+    model; `all_calls` adds the same calls with the two models swapped, so that calls on shared arguments
+    with different models are interleaved within one process"""
+    M = M or get_model('default')
+    tab = _calls(amr, M)
+    return {k + suffix: v for k, v in tab.items()}
+
+
+def all_calls(amr):
+    tab = calls(amr)
+    tab.update(calls(get_model('default'), amr, '@swapped'))
+    return tab
+
+
+def _calls(amr, M):
     return {
         'configure': lambda g, t: layout.configure(g),
         'configure_top': lambda g, t: layout.configure(g, top=sorted(g.variables())[-1]),
         'reconfigure': lambda g, t: layout.reconfigure(g, key=M.canonical_order),
+        'reconfigure_model': lambda g, t: layout.reconfigure(g, model=M, key=M.canonical_order),
+        'rearrange': lambda g, t: (lambda t2: (layout.rearrange(t2, key=M.canonical_order), t2)[1])(copy.deepcopy(t)),
+        'sort_keys': lambda g, t: [(M.canonical_order(r), M.alphanumeric_order(r), M.is_role_inverted(r))
+                                   for _, r, _ in g.triples],
         'reconfigure_nokey': lambda g, t: layout.reconfigure(g, top=sorted(g.variables())[0]),
         'encode': lambda g, t: penman.encode(g, compact=True),
         'encode_top': lambda g, t: penman.encode(g, top=sorted(g.variables())[-1], indent=None),
@@ -79,7 +99,21 @@ def calls(amr):
 def c17_pure(args):
     amr = get_model('amr')
     src, names = args['src'], args['calls']
-    cs = calls(amr)
+    cs0 = all_calls(amr)
+
+    def guarded(name):
+        # with the models swapped a call may be refused (no reification table): the refusal is its result
+        f = cs0[name]
+        if '@' not in name:
+            return f
+
+        def h(g, t):
+            try:
+                return f(g, t)
+            except Exception as e:
+                return 'EXC ' + type(e).__name__
+        return h
+    cs = {name: guarded(name) for name in cs0}
     g = penman.decode(src, model=amr)
     t = penman.parse(src)
     if args.get('strip'):
@@ -127,10 +161,17 @@ sys.path.insert(0, {verif!r})
 from vlib.bounded import d_api, base
 import penman
 amr = base.get_model('amr')
-cs = d_api.calls(amr)
+cs = d_api.all_calls(amr)
 out = {{}}
-for i, src in enumerate(d_api.SRC):
-    for name, f in cs.items():
+order = {order!r}
+items = list(cs.items())
+srcs = list(enumerate(d_api.SRC))
+if order == 'reversed':
+    items.reverse(); srcs.reverse()
+elif order == 'swapped-first':
+    items.sort(key=lambda kv: ('@' not in kv[0], kv[0]))
+for i, src in srcs:
+    for name, f in items:
         g = penman.decode(src, model=amr); t = penman.parse(src)
         try:
             out['%d:%s' % (i, name)] = d_api.val(f(g, t))
@@ -143,9 +184,12 @@ print(json.dumps(out, sort_keys=True))
 @check('C17.hashseed')
 def c17_hashseed(args):
     verif = os.path.dirname(os.path.dirname(os.path.dirname(os.path.abspath(__file__))))
-    script = HASHSEED_SCRIPT.format(verif=verif)
     outs = []
-    for seed in args['seeds']:
+    # each worker process makes the same calls in a different order (and under a different hash
+    # seed): a result that depends on what was called before it differs between workers
+    orders = ['forward', 'reversed', 'swapped-first']
+    for n, seed in enumerate(args['seeds']):
+        script = HASHSEED_SCRIPT.format(verif=verif, order=orders[n % len(orders)])
         env = dict(os.environ, PYTHONHASHSEED=str(seed),
                    PYTHONPATH=os.environ.get('VERIF_REPO', '/repo'))
         r = subprocess.run([sys.executable, '-c', script], capture_output=True, text=True, env=env, timeout=300)
@@ -155,7 +199,7 @@ def c17_hashseed(args):
     for o in outs[1:]:
         for k in o:
             if o[k] != outs[0][k]:
-                return 'result of %s differs across hash seeds/processes' % k
+                return 'result of %s differs across hash seeds / processes / call orders' % k
     return None
 
 
@@ -177,7 +221,7 @@ def c17_cli_hashseed(args):
 
 
 def run_C17(R):
-    names = list(calls(get_model('amr')))
+    names = list(all_calls(get_model('amr')))
     for src in SRC:
         for strip in (False, True):
             R.check('C17.pure', {'src': src, 'calls': names, 'strip': strip})
@@ -191,7 +235,7 @@ def run_C17(R):
         except Exception:
             continue
         R.check('C17.pure', {'src': src, 'calls': [R.rnd.choice(names) for _ in range(6)]})
-    R.check('C17.hashseed', {'seeds': [0, 1] if R.quick else [0, 1, 2, 12345, 'random']})
+    R.check('C17.hashseed', {'seeds': [0, 1, 2] if R.quick else [0, 1, 2, 12345, 'random', 7]})
     grid = [[], ['--amr', '--reify-edges'], ['--amr', '--dereify-edges', '--reify-attributes'],
             ['--amr', '--canonicalize-roles', '--rearrange', 'canonical'],
             ['--reconfigure', 'canonical'], ['--amr', '--check'], ['--make-variables', 'v{i}'],
